@@ -350,8 +350,116 @@ def rewrite(ot, drops, where, extra=None):
         break
       drops.append({"rule": "R3", "at": loc(m.start()), "what": what})
       ot.replace(m.start(), m.end(), new)
+  # R12: tokio::select! -> nondeterministic choice between its arms (see _desugar_select)
+  while True:
+    mask = ot.mask()
+    hit = None
+    for m in re.finditer(r"(?<![A-Za-z0-9_:!])(?:tokio::)?select!\s*\{", mask):
+      hit = m
+    if not hit:
+      break
+    _desugar_select(ot, mask, hit, drops, loc)   # innermost-last first: nested select! in an arm body is rewritten before its parent
   # declared per-unit literal substitutions (R6/R8): (rule, old, new[, count])
   _apply_extras(ot, drops, where, extra, loc)
+
+
+def _scan0(mask, p, end, pred):
+  """first position q in [p, end) at bracket depth 0 with pred(q) true; -1 if none"""
+  d = 0
+  q = p
+  while q < end:
+    c = mask[q]
+    if c in "([{":
+      d += 1
+    elif c in ")]}":
+      d -= 1
+    elif d == 0 and pred(q):
+      return q
+    q += 1
+  return -1
+
+
+def _desugar_select(ot, mask, hit, drops, loc):
+  """R12.  `tokio::select! { [biased;] PAT = FUT [, if COND] => BODY ... [else => BODY] }` becomes
+
+       match verif_select() { 0 [if COND] => { let PAT = FUT.await; BODY } 1 => ... _ => { verif_pending().await; verif_never() } }
+
+  i.e. ANY enabled arm may be the one that completes (sound over-approximation of select!: `biased` only restricts which
+  one wins); an arm written `async { X }` is inlined as `{ X }`; if the arbitrary choice hits a disabled arm the call blocks
+  for ever (ensures false), which is what select! does when nothing can complete.  ASSUMED (listed in the evidence): the
+  futures of the arms NOT taken were dropped without effect (cancel safety of every arm).  Arm bodies stay verbatim."""
+  op = hit.end() - 1
+  cl = match_close(mask, op)
+  arms = []
+  p = op + 1
+  while True:
+    while p < cl and mask[p] in " \t\n,":
+      p += 1
+    if p >= cl:
+      break
+    if mask.startswith("biased", p) and re.match(r"biased\s*;", mask[p:cl]):
+      e = p + re.match(r"biased\s*;", mask[p:cl]).end()
+      arms.append(("biased", p, e))
+      p = e
+      continue
+    arrow = _scan0(mask, p, cl, lambda q: mask.startswith("=>", q))
+    if arrow < 0:
+      raise VxError("select!: arm without `=>` at %s" % loc(p))
+    is_else = re.match(r"else\s*$", mask[p:arrow]) is not None
+    eq = -1 if is_else else _scan0(mask, p, arrow, lambda q: mask[q] == "=" and mask[q + 1] not in "=>" and mask[q - 1] not in "=!<>+-*/|&^%")
+    if not is_else and eq < 0:
+      raise VxError("select!: arm without `PAT = FUT` at %s" % loc(p))
+    guard = -1 if is_else else _scan0(mask, eq + 1, arrow, lambda q: mask[q] == "," and re.match(r",\s*if\b", mask[q:arrow]) is not None)
+    b = arrow + 2
+    while b < cl and mask[b] in " \t\n":
+      b += 1
+    if mask[b] == "{":
+      bend = match_close(mask, b) + 1
+      block = True
+    else:
+      c = _scan0(mask, b, cl, lambda q: mask[q] == ",")
+      bend = c if c >= 0 else cl
+      while bend > b and mask[bend - 1] in " \t\n":
+        bend -= 1
+      block = False
+    arms.append(("else" if is_else else "arm", p, eq, guard, arrow, b, bend, block))
+    p = bend
+  real = [a for a in arms if a[0] != "biased"]
+  n = len(real)
+  drops.append({"rule": "R12", "at": loc(hit.start()), "what": "tokio::select! with %d arms -> nondeterministic choice (match verif_select()); `biased` dropped; unselected arms assumed cancel safe" % n})
+  origin_end = ot.o[cl] if cl < len(ot.o) else None
+  # edits right to left
+  ot.replace(cl, cl + 1, "_ => { verif_pending().await; verif_never() } }", origin_end)
+  k = n
+  for a in reversed(arms):
+    if a[0] == "biased":
+      ot.replace(a[1], a[2], "")
+      continue
+    k -= 1
+    kind, p0, eq, guard, arrow, b, bend, block = a
+    ot.insert(bend, " }", ot.o[bend - 1])
+    if kind == "else":
+      ot.replace(p0, arrow + 2, "%d => {" % k)
+      continue
+    fut_end = guard if guard >= 0 else arrow
+    cond = ot.s[guard:arrow] if guard >= 0 else ""
+    cond = re.sub(r"^,\s*if\b", "", cond).strip()
+    fs = eq + 1
+    while fs < fut_end and mask[fs] in " \t\n":
+      fs += 1
+    fe = fut_end
+    while fe > fs and mask[fe - 1] in " \t\n":
+      fe -= 1
+    am = re.match(r"async\s*(move\s*)?\{", mask[fs:fe])
+    inline = am is not None and match_close(mask, fs + am.end() - 1) == fe - 1
+    # [fut_end, arrow+2): guard text and `=>` go away; FUT gets `.await;` (or, for an inline async block, just `;`)
+    ot.replace(fe, arrow + 2, ";" if inline else ").await;")
+    if inline:
+      ot.replace(fs, fs + am.end() - 1, "")
+    else:
+      ot.insert(fs, "(", ot.o[fs])
+    ot.insert(p0, "%d%s => { let " % (k, (" if " + cond) if cond else ""), ot.o[p0])
+  ot.replace(hit.start(), op + 1, "match verif_select() {")
 
 
 def _apply_extras(ot, drops, where, extra, loc):
@@ -809,7 +917,7 @@ def extract_fn(gen, f, probe=False):
     if anchor == "@fn_start":
       add_op(1, 1, "\n" + text.rstrip("\n") + "\n", t)
       continue
-    m = re.match(r"@loop_(start|end):(\d+)$", anchor)
+    m = re.match(r"@loop_(start|end|before):(\d+)$", anchor)
     if not m:
       raise VxError("bad structural anchor %r" % anchor)
     n = int(m.group(2))
@@ -817,6 +925,11 @@ def extract_fn(gen, f, probe=False):
       gen.skipped_hints.append({"fn": qual, "hint": name, "anchor": anchor, "why": "loop #%d not found" % n})
       continue
     brace = sites[n][2]
+    if m.group(1) == "before":
+      # right before the loop statement: start of the line holding the loop keyword (or a `let x = loop`/label prefix on that line)
+      ls = mask.rfind("\n", 0, sites[n][0]) + 1
+      add_op(ls, ls, text.rstrip("\n") + "\n", t)
+      continue
     if m.group(1) == "start":
       add_op(brace + 1, brace + 1, "\n" + text.rstrip("\n") + "\n", t)
     else:
